@@ -15,14 +15,13 @@ Lemma error_calls :
   branches_with OnError = ["et:2048"; "et:34525"; "proto:1"; "proto:17"; "proto:58"; "proto:6"; "top"].
 Proof. vm_compute. reflexivity. Qed.
 
-(* the steady-state helpers: echoNotify (whatever the waiter table holds) and the read-locked fast path of
-   findOrCreateHostWithLock call nothing that can allocate; hostOnline calls onlineTransition only (which runs its body
-   - the log line - only for a host that is not yet online); the slow path of findOrCreateHostWithLock and
-   onlineTransition are where the allocations of a new / offline source are *)
+(* the steady-state helpers as leaf sets: echoNotify (whatever the waiter table holds) reaches nothing that can allocate;
+   hostOnline reaches only the calls that build the online-transition log lines (guarded by IsInfo: kind logs);
+   findOrCreateHostWithLock reaches the table growth of its slow path *)
 Lemma steady_helpers_alloc_free :
-  helper_alloc_free "fn:echoNotify" = true /\ helper_alloc_free "fn:findOrCreateHostWithLock.fast" = true /\
-  helper_alloc_free "fn:findOrCreateHostWithLock" = false /\ helper_alloc_free "fn:onlineTransition" = false /\
-  calls_of "fn:hostOnline" parse_calls = Some [".Lock"; ".Unlock"; ".onlineTransition"].
+  helper_alloc_free "fn:echoNotify" = true /\
+  option_map (filter helper_may_alloc) (calls_of "fn:hostOnline" parse_calls) = Some [".IP"; ".Msg"; ".Struct"; ".Write"] /\
+  helper_alloc_free "fn:findOrCreateHostWithLock" = false.
 Proof. repeat split; vm_compute; reflexivity. Qed.
 
 (* every other callee of every branch is allocation-free by kind: nothing else can allocate on any path *)
@@ -62,5 +61,5 @@ Proof.
 Qed.
 
 (* the log statements on Parse's path: none is guarded by IsDebug, the two of the online transition by IsInfo *)
-Lemma logs_guards : map (fun r => snd (fst r)) parse_logs = ["always"; "info"; "info"].
+Lemma logs_guards : map snd parse_logs = ["always"; "info"; "info"].
 Proof. reflexivity. Qed.
